@@ -29,10 +29,6 @@ class Emit(object):
 
 
 def main(args):
-    if hasattr(sys, 'set_int_max_str_digits'):
-        # constants are unbounded integers and generated code is their decimal text
-        sys.set_int_max_str_digits(0)
-
     emit = Emit()
     opts = options.parse_options(emit.error, args)
 
